@@ -212,7 +212,7 @@ CHECKS["C07"] = {
     "level_text": "Sampled interleavings amplified by the race detector (it flags the unsynchronised pair whenever both accesses happen in one execution, not only when they collide) plus a value oracle against torn mixtures. Evidence, not proof: the harness does not own instruction-level interleavings.",
     "level_note": _E2E_NOTE + " Data races that do not involve pkg/metadata (e.g. upstream x/net's hpack encoder being resized by the serve loop while the frame writer uses it) are listed in the evidence as observations and are not this property's violations.",
     "assumptions": ["GOMAXPROCS is varied (1, 4, 16) across shards in the thorough tier"],
-    "units": [{"name": "c07", "pkg": "c07", "run": "^Test", "race": True, "race_filter": "pkg/metadata", "shards": 6}],
+    "units": [{"name": "c07", "pkg": "c07", "run": "^Test", "race": True, "race_filter": r"pkg/metadata|pkg/fingerprint|\(\*serverConn\)\.processFrame\(", "shards": 6}],
     "expect_checks": ["c07.streams"],
 }
 
